@@ -8,7 +8,7 @@ from ..core import norm
 HOST_PY = {"str": str, "int": int, "float": float, "bool": bool, "list": list, "dict": dict, "set": set,
            "tuple": tuple, "bytes": bytes, "None": type(None), "datetime": datetime.datetime,
            "re.Pattern": re.Pattern, "frozenset": frozenset, "range": range,
-           "dictview": type({}.keys())}
+           "dictview": type({}.keys()), "TextIO": __import__("io").TextIOWrapper}
 
 
 def known(av):
